@@ -25,6 +25,10 @@ static void decode_case(Tape &t, gp::GenCfg cfg, bool canonical, Case &c) {
   gp::normalise(c.prog);
   c.gen_classes = g.classes;
   c.layout = canonical ? gp::layout_canonical(c.prog, lt, c.nfiles) : gp::layout_free(c.prog, lt, c.nfiles);
+  if (c.layout.blank_includes) c.gen_classes.insert("layout:include-of-a-file-without-tokens");
+  if (c.layout.body_includes) c.gen_classes.insert("layout:include-inside-a-macro-body");
+  if (c.layout.main.rfind("__", 0) == 0) c.gen_classes.insert("layout:file-names-starting-with-__");
+  if (c.layout.main.rfind("Cc/", 0) == 0) c.gen_classes.insert("layout:file-names-differing-in-case-only");
   c.feat = gp::features(c.prog);
 }
 
@@ -611,8 +615,13 @@ static void prop_c20_lit(Tape &t, Result &r) {
   for (auto &e : cr.errors)
     if (e.message.find("out of range") != std::string::npos) has_range = true;
   if (macro_index) {
-    // the property names literals and priorities; what an out-of-range $n means is not specified, so for this
-    // position only totality is exercised (C02 asserts the result shape)
+    // the property names literals and priorities; which error an out-of-range $n gets is not specified. But a source
+    // whose only use of the macro needs slot number 2^31 or more cannot be compiled as correct: the number does not fit
+    // the word, and no pattern has such a slot, so whatever was inserted is not "what slot n matched" (C09)
+    if (too_big && cr.generated_correctly) {
+      r.fail("arith:index-not-rejected", "insertion index $" + lit + " does not fit the word, yet the program using the macro compiled correctly");
+      return;
+    }
     r.nontrivial = too_big;
     return;
   }
